@@ -28,7 +28,7 @@ var alphabet = []fragment{
 	{"sp-ind", "    AND c = 3"},
 	{"mix-ind", "\t  OR d = 4"},
 	{"lower-kw", "select a from t"},
-	{"str-1line", "WHERE s = 'and  x ' AND f = 6"},
+	{"str-1line", "WHERE s = 'and  x '  AND f = 6"},
 	{"str-open", "WHERE s = 'x  select  "},
 	{"str-mid", "from  y  "},
 	{"str-close", "and  z' AND e = 5"},
